@@ -269,6 +269,8 @@ impl RelationSet {
     }
 
     pub fn add(&mut self, r: Relation, pq: Option<(u64, u64)>) {
+        #[cfg(yamaquasi_verif)]
+        verif_hooks::observe_add(&self.n, &r, &pq);
         debug_assert!(&r.x < &self.n);
         if r.cofactor == 1 {
             self.add_cycle(r);
@@ -917,4 +919,114 @@ fn test_pack_relation() {
         ],
     };
     assert_eq!(PackedRelation::pack(r.clone()).unpack(), r);
+}
+
+// Verification hooks (add-only; compiled only with `--cfg yamaquasi_verif`).
+#[cfg(yamaquasi_verif)]
+pub mod verif_hooks {
+    use super::*;
+    use std::sync::Mutex;
+
+    /// One-token text form of a relation: `x:cofactor:cyclelen:p^k*p^k*...`
+    /// (`m1` stands for the sign -1, `-` for an empty factor list).
+    pub fn rel_token(r: &Relation) -> String {
+        let fs = if r.factors.is_empty() {
+            "-".to_string()
+        } else {
+            r.factors
+                .iter()
+                .map(|&(p, k)| {
+                    if p == -1 {
+                        format!("m1^{k}")
+                    } else {
+                        format!("{p}^{k}")
+                    }
+                })
+                .collect::<Vec<_>>()
+                .join("*")
+        };
+        format!("{}:{}:{}:{}", r.x, r.cofactor, r.cyclelen, fs)
+    }
+
+    pub fn pack_bytes(r: Relation) -> Vec<u8> {
+        PackedRelation::pack(r).blob.to_vec()
+    }
+
+    pub fn unpack_bytes(b: &[u8]) -> Relation {
+        PackedRelation {
+            blob: b.to_vec().into_boxed_slice(),
+        }
+        .unpack()
+    }
+
+    /// Pending single-large-prime relations (packed bytes), sorted by key.
+    pub fn partial_dump(s: &RelationSet) -> Vec<(u64, Vec<u8>)> {
+        let mut v: Vec<(u64, Vec<u8>)> = s
+            .partial
+            .iter()
+            .map(|(&k, r)| (k, r.blob.to_vec()))
+            .collect();
+        v.sort();
+        v
+    }
+
+    /// Pending double-large-prime relations (packed bytes), in map order.
+    pub fn doubles_dump(s: &RelationSet) -> Vec<((u32, u32), Vec<u8>)> {
+        s.doubles
+            .iter()
+            .map(|(&k, r)| (k, r.blob.to_vec()))
+            .collect()
+    }
+
+    /// Reverse index of the double-large-prime relations, in set order.
+    pub fn doubles_rev_dump(s: &RelationSet) -> Vec<(u32, u32)> {
+        s.doubles_rev.iter().copied().collect()
+    }
+
+    pub fn partial_contains(s: &RelationSet, p: u64) -> bool {
+        s.partial.contains_key(&p)
+    }
+
+    pub fn sizes(s: &RelationSet) -> (usize, usize, usize) {
+        (s.partial.len(), s.doubles.len(), s.doubles_rev.len())
+    }
+
+    // Observer of the linearised history of `RelationSet::add` calls.
+    // `observe_add` is called at the top of `add`, i.e. under the caller's write lock:
+    // the recorded order is the lock order.
+    static HISTORY: Mutex<Option<(Vec<std::thread::ThreadId>, Vec<String>)>> = Mutex::new(None);
+
+    pub fn history_start() {
+        *HISTORY.lock().unwrap() = Some((vec![], vec![]));
+    }
+
+    pub fn history_take() -> Vec<String> {
+        match HISTORY.lock().unwrap().take() {
+            Some((_, v)) => v,
+            None => vec![],
+        }
+    }
+
+    /// Records `"<thread index>|<relation token>|<p,q or ->"` when recording is on.
+    pub fn observe_add(_n: &Uint, r: &Relation, pq: &Option<(u64, u64)>) {
+        let mut g = match HISTORY.lock() {
+            Ok(g) => g,
+            Err(e) => e.into_inner(),
+        };
+        if let Some((tids, log)) = g.as_mut() {
+            let id = std::thread::current().id();
+            let t = match tids.iter().position(|&x| x == id) {
+                Some(i) => i,
+                None => {
+                    tids.push(id);
+                    tids.len() - 1
+                }
+            };
+            let pqs = match pq {
+                Some((p, q)) => format!("{p},{q}"),
+                None => "-".to_string(),
+            };
+            log.push(format!("{t}|{}|{pqs}", rel_token(r)));
+        }
+    }
 }
